@@ -42,12 +42,13 @@ PROPS = {
                "any order in [-2pi,2pi], some joints from==to, wrapping) x sorting weights {0,1,0.3,0.5} x dof 5/6 x four entry "
                "points, each run with and without the limits on the same query (cmp2) x wrapper stacks to depth 3 incl. a "
                "parallelogram on top; constraints() of every stack. non-trivial = the constrained run returned a solution"),
-    "C04": cfg(1500, 150000, ["C04."],
+    "C04": cfg(1500, 150000, ["C04.", "C17.sorted"],
                "hook-level normalize_near / calculate_distance on adversarial pairs (+-pi, +-2pi, signed zero, ties, far previous); "
                "queries (zoo x pose families x constraint families x sorting weights {0,1,0.3,0.5}) x previous families (origin, "
                "origin+turns, origin+small, sentinel, far, uniform [-2pi,2pi]) through inverse_continuing, inverse+inverse_continuing "
                "on the same query (superset) and inverse_continuing_5dof; dense random-walk trajectories of 200 steps where each "
-               "call's previous is the preceding first answer. non-trivial = at least one solution returned"),
+               "call's previous is the preceding first answer; Frame::forward_transformed (ordered by closeness to the given previous joints). "
+               "non-trivial = at least one solution returned"),
     "C02": dict(cfg(3000, 300000, ["C02."],
                "robot zoo x random joint vectors kept away from wrist/elbow/shoulder singularities by margins {1e-3,1e-2,1e-1} on "
                "|sin theta5|, |sin(theta3+psi3)| and |cx1| (computed by the generator and re-checked by the driver's oracle); for "
